@@ -73,6 +73,15 @@ func smallConfig(tag string, seeded bool) garbleConfig {
 	return c
 }
 
+// oneLengthClass follows, under the engine, only digests that yield
+// 6-character names (1 of the 7 length classes chosen by digest byte 9): the
+// relations checked between digests and names do not depend on the class.
+func oneLengthClass(name string) {
+	if symx.Symbolic() {
+		symx.Assume(len(name) == 6)
+	}
+}
+
 func bytesEq(a, b []byte) bool {
 	if len(a) != len(b) {
 		return false
@@ -153,6 +162,25 @@ func identString(name string, n int) string {
 	return s
 }
 
+// anyPath is a short symbolic import path or one of the string constants the
+// hashing functions themselves mention (so that a special-cased path is explored).
+func anyPath(name string, maxLen int) string {
+	var dict []string
+	for _, fn := range []string{"hashWithPackage", "hashWithStruct", "hashWithCustomSalt"} {
+		for _, s := range minedStrings[fn] {
+			if len(s) >= 3 && s[0] != ' ' && s[0] != '%' {
+				dict = append(dict, s)
+			}
+		}
+	}
+	dict = append(dict, "main", "runtime")
+	k := symx.Choose(maxLen + len(dict))
+	if k < maxLen {
+		return pathString(name, 1+k)
+	}
+	return dict[k-maxLen]
+}
+
 // pathString is an import path: no '|' (not a legal import path byte).
 func pathString(name string, n int) string {
 	s := symx.String(name, n)
@@ -168,7 +196,7 @@ func H_C12_seeded_stable() {
 	c1 := smallConfig("a", true)
 	c2 := smallConfig("b", true)
 	c2.seed = c1.seed
-	path := pathString("path", 1+symx.Choose(2))
+	path := anyPath("path", 2)
 	name := identString("name", 1+symx.Choose(2))
 	p1 := &listedPackage{ImportPath: path}
 	copy(p1.GarbleActionID[:], symx.Bytes("gid1", 32))
@@ -176,6 +204,7 @@ func H_C12_seeded_stable() {
 	copy(p2.GarbleActionID[:], symx.Bytes("gid2", 32))
 	c1.apply()
 	n1 := hashWithPackage(p1, name)
+	oneLengthClass(n1)
 	c2.apply()
 	n2 := hashWithPackage(p2, name)
 	symx.Reach("hashed")
@@ -233,9 +262,9 @@ func H_C12_unseeded_pkg() {
 	p2 := &listedPackage{ImportPath: "x"}
 	copy(p2.GarbleActionID[:], symx.Bytes("gid2", 32))
 	c.apply()
-	hashWithPackage(p1, name)
+	oneLengthClass(hashWithPackage(p1, name))
 	d1 := sumBuffer
-	hashWithPackage(p2, name)
+	oneLengthClass(hashWithPackage(p2, name))
 	d2 := sumBuffer
 	symx.Reach("hashed")
 	symx.Assert(symx.Or(bytesEq(p1.GarbleActionID[:], p2.GarbleActionID[:]), !bytesEq(d1[:], d2[:])), "another action ID, another name hash")
@@ -259,6 +288,7 @@ func H_C12_fields() {
 	st, f := twoFieldStruct()
 	c1.apply()
 	n1 := hashWithStruct(st, f)
+	oneLengthClass(n1)
 	d1 := sumBuffer
 	c2.apply()
 	n2 := hashWithStruct(st, f)
@@ -328,4 +358,42 @@ func H_C12_seedflag() {
 	symx.Assert(bytesEq(f.bytes, seed), "the parsed seed is the encoded one")
 	symx.Assert(f.String() == s, "String round-trips")
 	symx.Observe("seed", in, f.bytes)
+}
+
+// H_C12_unseeded_flags: without -seed, changing exactly one garble input
+// changes the package's action-ID salt and with it every package-scoped name.
+func H_C12_unseeded_flags() {
+	c1 := smallConfig("a", false)
+	c2 := c1
+	switch symx.Choose(4) {
+	case 0:
+		c2.literals = !c1.literals
+	case 1:
+		c2.tiny = !c1.tiny
+	case 2:
+		c2.gogarble = gogarbleString("bgogarble", len(c1.gogarble))
+		symx.Assume(c1.gogarble != c2.gogarble)
+	case 3:
+		c2.binID = symx.Bytes("bbin", 2)
+		symx.Assume(!bytesEq(c1.binID, c2.binID))
+	}
+	action := symx.Bytes("action", 2)
+	name := identString("name", 1)
+	c1.apply()
+	p1 := &listedPackage{ImportPath: "x", GarbleActionID: addGarbleToHash(action)}
+	r1 := hashWithPackage(p1, name)
+	if symx.Symbolic() {
+		symx.Assume(len(r1) == 6) // one of the 7 length classes; the digests compared do not depend on it
+	}
+	d1 := sumBuffer
+	c2.apply()
+	p2 := &listedPackage{ImportPath: "x", GarbleActionID: addGarbleToHash(action)}
+	r2 := hashWithPackage(p2, name)
+	if symx.Symbolic() {
+		symx.Assume(len(r2) == 6)
+	}
+	d2 := sumBuffer
+	symx.Reach("hashed")
+	symx.Assert(!bytesEq(p1.GarbleActionID[:], p2.GarbleActionID[:]), "another flag set, GOGARBLE or garble binary: another action-ID salt")
+	symx.Assert(!bytesEq(d1[:], d2[:]), "another flag set, GOGARBLE or garble binary: another name hash")
 }
